@@ -29,7 +29,10 @@ RULE = ("PDE instances with <=6 nodes and <=6 time levels (quick) / <=7 (thoroug
         "reused buffer; one input array overwritten in place between forward calls; histories of nearly identical parameters; keep-alive re-read "
         "of every earlier output and input); DTYPE of operator / source / initial condition / parameter / grids / time steps (int64, int32, bool, float32, float64, Python list, "
         "complex with zero imaginary part; one at a time and all together; the initial condition being the parameter object itself; result dtype of the "
-        "stored levels = DECISION: floating whenever the recurrence leaves the integers); solutions with two space axes; KL / KL_Full / CustomKL / Step / mapped fields of the test problems; values inside cells are "
+        "stored levels = DECISION: floating whenever the recurrence leaves the integers); genuinely complex problems through the real embedding; observe() alone on exactly bicubic data; the assumed laws of scipy's interpolants "
+        "checked on scipy itself; memory layouts (Fortran, strided, negative strides, read-only), np.matrix and LinearOperator operators; omitted optional "
+        "arguments, call styles, re-assigned attributes and swapped PDE objects; falsy-but-legitimate values; operators without nice structure; threshold "
+        "sizes (1-4 nodes / levels); observation nodes in any order; Jacobians of every shape; solutions with two space axes; KL / KL_Full / CustomKL / Step / mapped fields of the test problems; values inside cells are "
         "seeded. distinct = distinct (configuration, parameter, API path); trivial = single-level time grids and refused "
         "constructors")
 
